@@ -157,6 +157,11 @@ func (ds *Dataset) ReleaseFullSyncLease(fullSyncID string) error {
 
 // CompleteFullSync Full sync completed - mark unseen entities as deleted
 func (ds *Dataset) CompleteFullSync(ctx context.Context) error {
+	if !ds.fullSyncStarted {
+		// nothing to complete: the full sync was never started or its lease has expired.
+		// Deleting now would remove every entity, since nothing counts as seen
+		return errors.New("no full sync is running, can't complete")
+	}
 	defer func() {
 		ds.fullSyncStarted = false
 		ds.fullSyncSeen = make(map[uint64]int) // release sync state
